@@ -53,7 +53,10 @@ func (v *FlagValue) String() string {
 		return ""
 	}
 
-	return toString(v.Config(), v.collector.GetOptions(), v.onError)
+	// String only renders: a value that can not be rendered (NaN, a reference
+	// nothing defines yet) is reported in the text, it is not a failed argument
+	// after which the flag stops accepting settings.
+	return toString(v.Config(), v.collector.GetOptions(), func(err error) error { return err })
 }
 
 func (v *FlagValue) Get() interface{} {
@@ -64,10 +67,6 @@ func (v *FlagValue) Set(arg string) error {
 	cfg, internalErr, reportErr := v.loader(arg)
 	v.collector.Add(cfg, internalErr)
 	return reportErr
-}
-
-func (v *FlagValue) onError(err error) error {
-	return v.collector.Add(nil, err)
 }
 
 func toString(cfg *ucfg.Config, opts []ucfg.Option, onError func(error) error) string {
